@@ -43,6 +43,21 @@ func main() {
 			os.Exit(2)
 		}
 		fmt.Println(string(b))
+	case "dump":
+		// debugging aid: gmslverif dump <func spec> [--repo dir]
+		if len(os.Args) < 3 {
+			usage()
+		}
+		repo := envOr("GMSL_REPO", "/repo")
+		if len(os.Args) >= 5 && os.Args[3] == "--repo" {
+			repo = os.Args[4]
+		}
+		prog, err := fw.Load(fw.LoadOpts{Dir: repo})
+		if err != nil {
+			fmt.Println(err)
+			os.Exit(2)
+		}
+		fw.DumpFunc(prog, os.Args[2])
 	case "check":
 		if len(os.Args) < 3 {
 			usage()
